@@ -9,10 +9,12 @@ CLAIMED = {
    text="Coq theorems (C01.v: desired-set characterisation, uniqueness, greedy reading, effective range/slots, "
         "max/min helpers, normalised slot sets) hold for every replica count and every annotation string; the Gallina "
         "model of helper.go is tied to the code on every run by evaluating the real helpers and the model on the same "
-        "inputs (exhaustive small domain, int32 extremes, malformed-annotation stream, random) inside coqc.",
+        "inputs (exhaustive small domain, int32 extremes, malformed-annotation stream, random) inside coqc. Controller clause: theorem "
+        "C01_controller_creates_only_desired (every pod create of every reconcile, all API states / caches / oracles, names a member of the desired set) over "
+        "the reconcile model, tied by snapshots through the real controller (create calls projected) + monitor.",
    note="Trusted: Coq kernel + vm_compute, the hand-written model of helper.go incl. the encoding/json reading of []int32 "
         "(validated by the correspondence), harness and driver. Hypothesis: r + |slots| <= MaxInt32.",
-   technique="Coq proof over an executable model + differential correspondence with the real helpers",
+   technique="Coq proof over an executable model + differential correspondence with the real helpers and the real controller + monitor",
    ref="6 C01"),
  "C03": dict(
    text="Coq theorems (C03.v) over the model of the WHOLE reconcile: every pod delete call in the log of every reconcile, for every API "
@@ -230,7 +232,7 @@ manifest = {
    "guard": "verif",
    "enable": "go build -tags verif (the harness module /verif/harness replaces the two repo modules by /repo and /repo/client)",
    "baseline_off_cmd": "for m in . ./client; do (cd /repo/$m && GOFLAGS=-mod=mod GOPROXY=off GOSUMDB=off GOTOOLCHAIN=local go test -json -vet=off -count=1 -timeout 25m ./...); done",
-   "source_commits": ["797bc1c"],
+   "source_commits": ["797bc1c", "fd3ec5a"],
    "add_only": True,
  },
  "engines": [{
